@@ -363,3 +363,10 @@ def check_load(ctx, F):
                 ctx.violation("C08.load-keeps-resumable", site, "%s (%s)" % (site, F.floc(fid)), bad_keep, {})
             if bad_commit:
                 ctx.violation("C08.load-commit", site, "%s (%s)" % (site, F.floc(fid)), bad_commit, {})
+
+
+def final(ctx):
+    # the field width of a region's prong is bitContain(WIDTH): the helper itself is decided by a static_assert witness (shared with C18.helpers)
+    from . import helpwit
+    helpwit.run(ctx, "C08.budget", only={"bitContain", "contain"})
+
